@@ -1,13 +1,14 @@
-\* Directed family for the age limit: many small segments, non-monotone last-write
+\* Directed family for the age limit: small segments (1-3 messages, so first and last
+\* write of a segment may lie on different sides of the cut-off), reopen, non-monotone last-write
 \* times (several lags), clock ticks, the age limit always configured, cleans only
 \* on logs with at least three segments.
 SPECIFICATION MCSpec
 CONSTANTS
-  MaxRecs = 9
-  MaxBatch = 2
+  MaxRecs = 10
+  MaxBatch = 3
   MaxOps = 16
   MaxEpoch = 1
-  CapSet = {1, 2}
+  CapSet = {1, 2, 3}
   KeySet = {"a"}
   AgeSet = {2, 3, 5}
   MsgsSet = {0, 6}
@@ -18,7 +19,7 @@ CONSTANTS
   MaxCleans = 3
   MaxTicks = 3
   UseWindow = TRUE
-  UseReopen = FALSE
+  UseReopen = TRUE
   UseEpochs = FALSE
   OccSet = {FALSE}
   MinCleanSegs = 3
